@@ -16,13 +16,15 @@ Definition ref_owner (l : list dref) (k : key) : option cid :=
 Definition owner_ok (l : list dref) (c : cid) (k : key) : bool :=
   match ref_owner l k with None => true | Some o => N.eqb o c end.
 
+Definition ref_def (c : cid) (t : rst) (f : fid) (decl : list key) (d : srd) : rst :=
+  let g := t_next t in
+  let eff := filter (owner_ok (t_live t) c) (nodupN decl) in
+  let rest := filter (fun r => negb (N.eqb (r_ctx r) c && N.eqb (r_name r) f)) (t_live t) in
+  mk_rst (rest ++ [mk_dref c f g d eff]) (t_files t) (g + 1)%N.
 Definition ref_stmt (c : cid) (t : rst) (x : stmt) : rst :=
   match x with
-  | SDef f decl d =>
-      let g := t_next t in
-      let eff := filter (owner_ok (t_live t) c) (nodupN decl) in
-      let rest := filter (fun r => negb (N.eqb (r_ctx r) c && N.eqb (r_name r) f)) (t_live t) in
-      mk_rst (rest ++ [mk_dref c f g d eff]) (t_files t) (g + 1)%N
+  | SDef f decl d => ref_def c t f decl d
+  | SDefRt f decl d => ref_def c t f decl d          (* where a function is created makes no difference to the property *)
   | SDel f =>
       mk_rst (filter (fun r => negb (N.eqb (r_ctx r) c && N.eqb (r_name r) f)) (t_live t)) (t_files t) (t_next t)
   end.
